@@ -6,13 +6,13 @@ CONSTANTS
   KF_FastInvertSkipsStopLine = FALSE
   KF_ReaderByteCountIgnoresPartial = FALSE
   MaxLines = 3
-  Bodies <- BodiesCand
-  CtxMax = 2
-  Terms = {"crlf", "nul"}
+  Bodies <- BodiesLFinside
+  CtxMax = 1
+  Terms = {"nul"}
   Strats = {"reader", "slice"}
-  Paths = {"slow", "fast", "cand"}
+  Paths = {"slow", "fast"}
   Caps = {3}
-  Flags = {"inv", "pass", "stopnm"}
+  Flags = {"inv", "pass", "stopnm", "nolnum"}
   Bins = {"none"}
   PlanKinds = {}
 INVARIANTS BufInv ModelOK Emitted
